@@ -368,6 +368,8 @@ def check_seq(seq, stats):
                     body = obs[5:obs.index(" paths=")]
                     if pm.group(1) != "ok":
                         hits.append(hit("C02", seq, no, raw, f"the access paths of archetype {op[1]} disagree with each other: {pm.group(1)}", "paths-disagree"))
+                        if "-len" in pm.group(1):
+                            hits.append(hit("C06", seq, no, raw, f"a slice accessor of archetype {op[1]} does not present exactly len() items: {pm.group(1)}", "slice-len"))
                         if "iter" in pm.group(1) or "entities" in pm.group(1):
                             hits.append(hit("C06", seq, no, raw, f"Archetype::iter / iter_mut / entities() of archetype {op[1]} do not present each entity with its own handle and components: {pm.group(1)}", "iter-paths-disagree"))
                 for r in body.split("|"):
